@@ -626,7 +626,7 @@ class C17(PropBase):
         else:
             cases = self.url_cases(ctx["seed"])
         out = []
-        n_req = n_cmp = 0
+        n_req = n_cmp = n_lost = 0
         try:
             model_exe = vlib.ocaml_build(self.pid)
             mans, mdead = vlib.run_lines([model_exe, "--url"], cases, timeout=300, mem_gb=8)
@@ -653,6 +653,12 @@ class C17(PropBase):
                 base_case = parts[0] == "B"
                 rel = None if base_case or parts[1] == "N" else unhx(parts[1]).decode("utf-8", "replace")
                 calls = [self._targets(f) for f in (parts[1:] if base_case else parts[2:])]
+                if any(t == "" for call in calls for t in call):
+                    # the listener accepted a connection that carried no request line (the client gave up before sending: seen once
+                    # while a cargo build saturated the machine).  An HTTP request always has a non-empty target, so this is not an
+                    # observation of the code; the case is counted, not judged.
+                    n_lost += 1
+                    continue
                 n_req += sum(len(t) for t in calls)
                 bad = None
                 if not base_case:
@@ -682,6 +688,10 @@ class C17(PropBase):
         ctx["info"]["url_probe_cases"] = len(cases) * len(self.profiles)
         ctx["info"]["url_probe_requests_observed"] = n_req
         ctx["info"]["url_probe_predictions_compared"] = n_cmp
+        ctx["info"]["url_probe_cases_without_request_line"] = n_lost
+        if n_lost > max(20, len(cases) * len(self.profiles) // 50):
+            out.append({"case": cases[0], "profile": self.profiles[0], "found_input": False,
+                        "what": "url probe: %d of %d cases reached the listener without a request line — the probe observes nothing" % (n_lost, len(cases) * len(self.profiles))})
         out += self.join_probe(ctx)
         out += self.fs_probe(ctx)
         # failing inputs first (the runner prints the first few violations)
